@@ -39,6 +39,8 @@ pub struct SysCfg {
     pub array_const_only_in_init: bool,
     /// a third of the systems have no states at all
     pub allow_stateless: bool,
+    /// bare symbols as next / init / bad functions, init and next sharing one expression node
+    pub plain_shapes: bool,
 }
 
 impl Default for SysCfg {
@@ -64,6 +66,7 @@ impl Default for SysCfg {
             array_eq: true,
             array_const_only_in_init: false,
             allow_stateless: false,
+            plain_shapes: true,
         }
     }
 }
@@ -174,6 +177,12 @@ pub fn gen_system(rng: &mut Rng, ctx: &mut Context, cfg: &SysCfg, prefix: &str) 
             continue;
         }
         let d = g.rng.below(cfg.max_depth as u64) as u32;
+        let readable: Vec<ExprRef> = (if cfg.init_reads_states { state_syms[..k].to_vec() } else { vec![] }).into_iter().chain(if cfg.init_reads_inputs { input_syms.clone() } else { vec![] }).filter(|o| super::expr::s_type(ctx, *o) == super::expr::s_type(ctx, s)).collect();
+        if cfg.plain_shapes && !readable.is_empty() && g.rng.chance(1, 8) {
+            // the initial value is a bare symbol (an earlier register, a reset-value input)
+            inits.push(Some(*g.rng.pick(&readable)));
+            continue;
+        }
         let e = match super::expr::s_type(ctx, s) {
             patronus::expr::Type::BV(w) => {
                 if g.rng.chance(1, 2) {
@@ -205,8 +214,17 @@ pub fn gen_system(rng: &mut Rng, ctx: &mut Context, cfg: &SysCfg, prefix: &str) 
             nexts.push(None);
             continue;
         }
+        let same_type: Vec<ExprRef> = state_syms.iter().chain(input_syms.iter()).copied().filter(|o| *o != s && super::expr::s_type(ctx, *o) == super::expr::s_type(ctx, s)).collect();
+        let k = nexts.len();
         let e = if g.rng.chance(1, 8) {
             s // constant state
+        } else if cfg.plain_shapes && !same_type.is_empty() && g.rng.chance(1, 6) {
+            // a register that just samples an input or another register (pipelines, shift registers):
+            // the next function is a bare symbol, possibly used nowhere else
+            *g.rng.pick(&same_type)
+        } else if cfg.plain_shapes && inits[k].map(|i| !ctx[i].is_bv_lit() && !ctx[i].is_symbol()).unwrap_or(false) && !r2::symbols_of(ctx, &[inits[k].unwrap()]).is_empty() && g.rng.chance(1, 3) {
+            // init and next are the very same expression node
+            inits[k].unwrap()
         } else {
             match super::expr::s_type(ctx, s) {
                 patronus::expr::Type::BV(w) => g.bv(ctx, w, d),
@@ -244,6 +262,11 @@ pub fn gen_system(rng: &mut Rng, ctx: &mut Context, cfg: &SysCfg, prefix: &str) 
             0 => ctx.get_true(),
             1 => ctx.get_false(),
             2 if k > 0 => sys.bad_states[0], // duplicate
+            5 if cfg.plain_shapes => {
+                // a bare 1-bit state or input as bad state
+                let one: Vec<ExprRef> = state_syms.iter().chain(input_syms.iter()).copied().filter(|o| super::expr::s_type(ctx, *o) == patronus::expr::Type::BV(1)).collect();
+                if one.is_empty() { g.bv(ctx, 1, d) } else { *g.rng.pick(&one) }
+            }
             3 | 4 if !state_syms.is_empty() => {
                 // equality of a state with a literal: reachable only sometimes / late
                 let s = *g.rng.pick(&state_syms);
@@ -282,6 +305,46 @@ pub fn gen_system(rng: &mut Rng, ctx: &mut Context, cfg: &SysCfg, prefix: &str) 
         }
     }
     GenSys { sys, named }
+}
+
+/// number of distinct structural features a system shows (used to prefer feature-rich systems where every
+/// system is expensive to judge: changes that need a conjunction of shapes are then met more often)
+pub fn feature_score(ctx: &Context, sys: &TransitionSystem) -> u32 {
+    let input_set: Vec<ExprRef> = sys.inputs.clone();
+    let state_set: Vec<ExprRef> = sys.states.iter().map(|s| s.symbol).collect();
+    let reads = |e: ExprRef, set: &[ExprRef]| r2::symbols_of(ctx, &[e]).iter().any(|x| set.contains(x));
+    let init_nodes: Vec<ExprRef> = r2::post_order(ctx, &sys.states.iter().filter_map(|s| s.init).collect::<Vec<_>>());
+    let next_nodes: Vec<ExprRef> = r2::post_order(ctx, &sys.states.iter().filter_map(|s| s.next).collect::<Vec<_>>());
+    let compound = |e: &ExprRef| !ctx[*e].is_symbol() && !ctx[*e].is_bv_lit();
+    let f = [
+        sys.states.iter().any(|s| s.init.is_some() && s.init == s.next && compound(&s.init.unwrap())),
+        sys.states.iter().any(|s| s.next.map(|n| n != s.symbol && ctx[n].is_symbol()).unwrap_or(false)),
+        sys.states.iter().any(|s| s.next == Some(s.symbol)),
+        sys.states.iter().any(|s| s.next.is_none()),
+        sys.states.iter().any(|s| s.init.map(|i| reads(i, &input_set)).unwrap_or(false)),
+        sys.states.iter().any(|s| s.init.map(|i| reads(i, &state_set)).unwrap_or(false)),
+        sys.states.iter().any(|s| matches!(super::expr::s_type(ctx, s.symbol), patronus::expr::Type::Array(_))),
+        !sys.constraints.is_empty(),
+        sys.bad_states.len() >= 2,
+        init_nodes.iter().any(|n| compound(n) && next_nodes.contains(n)),
+        sys.bad_states.iter().any(|b| ctx[*b].is_symbol()),
+        sys.states.iter().any(|s| s.init.is_none()),
+        sys.states.iter().any(|s| s.init.map(|i| ctx[i].is_symbol()).unwrap_or(false)),
+    ];
+    f.iter().filter(|x| **x).count() as u32
+}
+
+/// the most feature-rich of `tries` generated systems
+pub fn gen_rich_system(rng: &mut Rng, ctx: &mut Context, cfg: &SysCfg, tries: u32) -> GenSys {
+    let mut best: Option<(u32, GenSys)> = None;
+    for t in 0..tries.max(1) {
+        let gs = gen_system(rng, ctx, cfg, &format!("r{t}_"));
+        let sc = feature_score(ctx, &gs.sys);
+        if best.as_ref().map(|b| sc > b.0).unwrap_or(true) {
+            best = Some((sc, gs));
+        }
+    }
+    best.unwrap().1
 }
 
 /// all root expressions of a system (init, next, outputs, bads, constraints)
